@@ -19,15 +19,21 @@ Correspondence (real code vs compiled model driver, every observable the propert
             `toDict/fromDict`;  np.dtype(str) and the pixel-type regex on generated strings against the tables;
   externals str()/float()/dtype() of float16 (all 65536 words in the thorough tier), float32, float64 scalars: the facts
             the theorems take as hypotheses (IOok, NodataPrintable), checked directly;
-  clone     clone + random interleavings of item writes, fill and data rebinding on original and clone against the
-            array-store model;
-  clip      Grid.clip on boxes with both corners inside the extent against `clip` (bit-equal corner, data, parent);
+  clone     clone(), clone(own dtype), clone(other dtype) against `clone/cloneAs`, then random interleavings of item
+            writes (Grid.__setitem__ and through the array the getter returns), fill and data rebinding on original
+            and clone against the array-store model (`Store.clone / cloneMap`), np.shares_memory after every step;
+            the flow-direction grid held by a Catchment;
+  clip      Grid.clip on boxes with both corners inside the extent against `clip` (bit-equal corner, data, parent):
+            free boxes and lattice-aligned ones (decimal cell sizes 0.1, 0.05, 0.025, ...; corners ON cell edges, on
+            centres, on quarters, and one ulp either side);
   catchment Catchment.to_dict / from_dict after a real delineation, with and without inlets.
 Oracle (real objects only, independent of the model): bitwise equality of cell values after setter, save/load
 (little-endian as saved, big-endian as synthesised), clone; equality of shape, corner, cell size (bits), dtype and
-no-data value (NaN = NaN) after save/load, dict round trip, clone; clone independence both ways; every clipped cell
-holds the parent's value at the parent cell containing its centre, and that centre is the parent's centre to 4 ulp of
-the coordinates' magnitude; catchment outlet, inlets, area and filled area after the dict round trip.
+no-data value (NaN = NaN) after save/load, dict round trip, clone; clone independence both ways (clone(), clone(own dtype), clone(other dtype); np.shares_memory); every clipped
+cell, located through the clipped grid's OWN georeferencing (its cell centres), holds the value the parent holds at that
+coordinate (parent.coord2cell of the centre) and that centre is the parent's centre to 4 ulp of the coordinates'
+magnitude - claimed for every box clear of the outer boundary, corners on cell edges included; the exact window is
+claimed when no corner is within 64 ulp of a cell edge; catchment outlet, inlets, area and filled area after the dict round trip.
 Cases: dtypes int8..int64, uint8..uint64, float16/32/64 in rotation; shapes 1x1 .. 6x6 (64x64 in the thorough tier);
 cell words = type extremes, sign bit, 2^53+1, 2^62+1, NaN/inf/-0/denormal patterns, then random bits; no-data = same
 pool; corner and cell size = 0, -0, 0.1, 1/3, denormal, max, 1e16/1e22 (repr switches) then random finite bit
@@ -82,7 +88,7 @@ def word_of(value, t):
 
 def is_nan_word(w, t):
     t = np.dtype(t)
-    if t.kind != "f":
+    if t.kind != "f" or w >= 1 << (8 * t.itemsize):
         return False
     v = np.array([w], dtype="u%d" % t.itemsize).view(t)[0]
     return bool(v != v)
@@ -446,6 +452,9 @@ def body(ctx):
                   nodata=rng.choice([0, -1, 255]))
         fd.data = fddata
         ca = Catchment(name, fd)
+        if np.shares_memory(ca.flowdir.data, fd.data):     # Catchment.__init__ clones with the grid's own dtype (int64)
+            ctx.finding("clone/shares_memory/catchment_flowdir", "a catchment shares the data array of the flow direction grid it was given",
+                        {"op": "catchment", "shape": [nr, nc]})
         try:
             ca.delineate_area(outlet, inlets)
         except ValueError:
@@ -724,6 +733,18 @@ def body(ctx):
             check_bits(ctx, "clone/data", "cell values of a clone are not bit-identical", g.data, g3.data, case)
             if np.shares_memory(g.data, g3.data):
                 ctx.finding("clone/shares_memory", "a clone shares its data array with the original", case)
+            g4 = g.clone(t.type)
+            ask(f"cloneas {t.kind} {t.itemsize} " + grid_toks(g), "grid", obs_real(g4), {**case, "op": "clone(own dtype)"})
+            check_meta(ctx, "clone/same", g, g4, case)
+            check_bits(ctx, "clone/data/same", "cell values of clone(own dtype) are not bit-identical", g.data, g4.data, case)
+            if np.shares_memory(g.data, g4.data):
+                ctx.finding("clone/shares_memory/same", "clone(own dtype) shares its data array with the original", case)
+            if t.kind in "iu":
+                d2 = np.dtype(rng.choice([x for x in DTYPES if x != tname]))
+                g5 = g.clone(d2.type)
+                ask(f"cloneas {d2.kind} {d2.itemsize} " + grid_toks(g), "grid_nonodata", obs_real(g5), {**case, "op": "clone(other dtype)", "to": str(d2)})
+                if np.shares_memory(g.data, g5.data):
+                    ctx.finding("clone/shares_memory/other", "clone(other dtype) shares its data array with the original", case)
             g3.name = g3.name + "_changed"
             g3.nodata = 1
             g3.comment = "changed"
@@ -778,119 +799,199 @@ def body(ctx):
             text_facts(tname, w)
 
     # ======================================================================= (5) clone independence under mutation
-    for rep in range(ctx.scale(300, 3000)):
+    # clone(), clone(own dtype) and clone(other dtype), then in-place writes and rebindings on either side
+    def other_dtype(tname):
+        src = np.dtype(tname)
+        # float -> integer casts of out-of-range values are undefined: only well-defined pairs are requested
+        pool = [d for d in DTYPES if d != tname and (src.kind in "iu" or np.dtype(d).kind == "f")]
+        return np.dtype(rng.choice(pool))
+
+    def no_nan_words(t, ws):
+        return [w if not is_nan_word(w, t) else 0 for w in ws]
+
+    for rep in range(ctx.scale(400, 4000)):
         tname = rng.choice(DTYPES)
         t = np.dtype(tname)
         nr, nc = gen_shape(ctx, rng)
         if nr * nc > 64:
             nr, nc = 4, 4
+        mode = rng.choice(["none", "same", "same", "other"])
         a, vals, _ = make_grid(Grid, rng, tname, (nr, nc), name="a", comment="")
+        dst = other_dtype(tname) if mode == "other" else t
+        if mode == "other" and t.kind == "f":
+            vals = np.array(no_nan_words(t, [int(v) for v in uview(vals).ravel()]), dtype="u%d" % t.itemsize).view(t).reshape(nr, nc)
         a.data = vals
-        b = a.clone()
-        before_a = a.data.copy()
-        before_b = b.data.copy()
-        ops = []
-        touched = {"A": False, "B": False}
+        case = {"op": "store", "mode": mode, "dtype": tname, "clone_dtype": str(dst), "shape": [nr, nc], "ops": []}
+        try:
+            b = a.clone() if mode == "none" else a.clone(dst.type)
+        except Exception as e:  # noqa
+            ctx.finding(f"clone/raises/{mode}", "Grid.clone raises", {**case, "error": f"{exc_class(e)}: {e}"[:200]})
+            continue
+        # the clone right after cloning
+        with np.errstate(all="ignore"):
+            expected_b = vals if mode != "other" else vals.astype(dst)
+        if mode != "other":
+            check_meta(ctx, f"clone/{mode}", a, b, case)
+        elif np.dtype(b.dtype) != dst or tuple(b.shape) != tuple(a.shape) or rawhex(b.xllcorner) != rawhex(a.xllcorner):
+            ctx.finding("clone/other/meta", "clone(dtype) has the wrong dtype, shape or corner", case)
+        if b.data.dtype == dst:
+            check_bits(ctx, f"clone/data/{mode}", "cell values of a clone are not the (converted) values of the original", expected_b, b.data, case)
+        if np.shares_memory(a.data, b.data):
+            ctx.finding(f"clone/shares_memory/{mode}", "a clone shares its data array with the original", case)
         obj = {"A": a, "B": b}
+        dts = {"A": t, "B": np.dtype(b.data.dtype)}
+        exp = {"A": a.data.copy(), "B": b.data.copy()}
+        ops = case["ops"]
+        broken = False
         for _ in range(rng.randint(1, 8)):
             who = rng.choice("AB")
+            other = "B" if who == "A" else "A"
+            tw = dts[who]
             k = rng.random()
-            w = gen_words(rng, t, 1)[0]
-            sc = np.array([w], dtype="u%d" % t.itemsize).view(t)[0]
-            if k < 0.5:
+            w = gen_words(rng, tw, 1)[0]
+            sc = np.array([w], dtype="u%d" % tw.itemsize).view(tw)[0]
+            if k < 0.3:
                 idx = rng.randrange(nr * nc)
-                obj[who][idx] = sc
+                obj[who][idx] = sc                      # Grid.__setitem__
                 ops.append(f"{who}:i:{idx}:{w}")
+            elif k < 0.5:
+                i, j = rng.randrange(nr), rng.randrange(nc)
+                obj[who].data[i, j] = sc                # write through the array the getter returns
+                ops.append(f"{who}:i:{i * nc + j}:{w}")
             elif k < 0.7:
                 obj[who].fill(sc)
                 ops.append(f"{who}:f:{w}")
             else:
-                nv = np.array(gen_words(rng, t, nr * nc), dtype="u%d" % t.itemsize).view(t).reshape(nr, nc)
+                nv = np.array(gen_words(rng, tw, nr * nc), dtype="u%d" % tw.itemsize).view(tw).reshape(nr, nc)
                 obj[who].data = nv
                 ops.append(f"{who}:d:{fmt_mat(nv)}")
-            touched[who] = True
-            if who == "B" and not touched["A"] and a.data.tobytes() != before_a.tobytes():
-                ctx.finding("clone/not_independent", "writing to the clone changed the original", {"dtype": tname, "ops": ops})
-        case = {"op": "store", "dtype": tname, "shape": [nr, nc], "ops": ops}
-        ask(f"store {fmt_mat(vals)} " + " ".join(ops), "plain", fmt_mat(a.data) + " " + fmt_mat(b.data), case)
-        if not touched["B"] and b.data.tobytes() != before_b.tobytes():
-            ctx.finding("clone/not_independent", "writing to the original changed the clone", case)
-        if not touched["A"] and a.data.tobytes() != before_a.tobytes():
-            ctx.finding("clone/not_independent", "writing to the clone changed the original", case)
-        ctx.count(("store", tname, tuple(ops)), True, "clone/store")
+            if not broken and obj[other].data.tobytes() != exp[other].tobytes():
+                broken = True
+                ctx.finding(f"clone/not_independent/{mode}",
+                            "a write through the " + ("clone changed the original" if who == "B" else "original changed the clone"),
+                            {**case, "ops": list(ops)})
+            if not broken and np.shares_memory(a.data, b.data):
+                broken = True
+                ctx.finding(f"clone/shares_memory/{mode}", "clone and original share their data array", {**case, "ops": list(ops)})
+            exp[who] = obj[who].data.copy()
+        if mode == "none":
+            req = f"store {fmt_mat(vals)} " + " ".join(ops)
+        else:
+            req = f"storeas {t.kind} {t.itemsize} {dst.kind} {dst.itemsize} {fmt_mat(vals)} " + " ".join(ops)
+        ask(req, "plain", fmt_mat(a.data) + " " + fmt_mat(b.data), {**case, "ops": list(ops)})
+        ctx.count(("store", mode, tname, str(dst), tuple(ops)), True, f"clone/store/{mode}")
 
     # ======================================================================= (6) clip
-    for rep in range(ctx.scale(300, 3000)):
+    F = Fraction
+    DEC_CSZ = ["0.1", "0.05", "0.025", "0.0025", "0.2", "0.3", "0.7", "0.001", "0.01", "0.5", "2", "0.25", "1", "1000", "0.0125"]
+    DEC_ORG = ["0", "112", "-43.75", "112.9", "0.1", "-2951000", "1.5", "-0.3", "145.44625", "10", "-7"]
+    for rep in range(ctx.scale(500, 5000)):
         tname = rng.choice(DTYPES)
         t = np.dtype(tname)
-        nr, nc = (rng.randint(1, 8), rng.randint(1, 8)) if not (ctx.thorough and rng.random() < 0.05) else (40, 33)
-        csz = rng.choice([1.0, 0.25, 0.1, 0.0025, 1000.0, rng.uniform(0.01, 10), 10 ** rng.uniform(-3, 3)])
-        scale = csz * rng.choice([0, 1, 10, 1000])
-        xll = rng.choice([0.0, -3.5 * csz, rng.uniform(-1, 1) * scale, 112.90125, -2951000.0])
-        yll = rng.choice([0.0, 7 * csz, rng.uniform(-1, 1) * scale, -43.74375])
-        g, vals, nodw = make_grid(Grid, rng, tname, (nr, nc), georef=(xll, yll, csz))
-        g.data = vals
+        nr, nc = (rng.randint(1, 12), rng.randint(1, 12)) if not (ctx.thorough and rng.random() < 0.05) else (40, 33)
         c0, c1 = sorted([rng.randrange(nc), rng.randrange(nc)])
         rt, rb = sorted([rng.randrange(nr), rng.randrange(nr)])   # top row, bottom row (row numbers grow downwards)
-        fr = [rng.choice([0.5, 0.25, 0.75, 0.01, 0.99, rng.random()]) for _ in range(4)]
-        if c0 == c1:
-            fr[0], fr[1] = sorted(fr[:2])
-        if rt == rb:
-            fr[2], fr[3] = sorted(fr[2:])
-        x0 = float(np.float64(xll) + np.float64(csz) * (c0 + fr[0]))
-        x1 = float(np.float64(xll) + np.float64(csz) * (c1 + fr[1]))
-        y0 = float(np.float64(yll) + np.float64(csz) * ((nr - 1 - rb) + fr[2]))
-        y1 = float(np.float64(yll) + np.float64(csz) * ((nr - 1 - rt) + fr[3]))
+        lattice = rng.random() < 0.5
+        if lattice:
+            # decimal geometry (cell sizes such as 0.1 or 0.05 are not binary fractions) and corners placed ON the lattice of
+            # the parent: on a cell edge, on a cell centre, on a quarter, and one ulp either side of those
+            dcsz, dxll, dyll = F(rng.choice(DEC_CSZ)), F(rng.choice(DEC_ORG)), F(rng.choice(DEC_ORG))
+            csz, xll, yll = float(dcsz), float(dxll), float(dyll)
+            fr = [rng.choice([F(0), F(0), F(1, 2), F(1, 4), F(3, 4)]) for _ in range(4)]
+            if c0 == c1:
+                fr[0], fr[1] = sorted(fr[:2])
+            if rt == rb:
+                fr[2], fr[3] = sorted(fr[2:])
+            pts = [float(dxll + dcsz * (c0 + fr[0])), float(dyll + dcsz * ((nr - 1 - rb) + fr[2])),
+                   float(dxll + dcsz * (c1 + fr[1])), float(dyll + dcsz * ((nr - 1 - rt) + fr[3]))]
+            pts = [float(np.nextafter(p, rng.choice([-np.inf, np.inf]))) if rng.random() < 0.2 else p for p in pts]
+            x0, y0, x1, y1 = pts
+        else:
+            csz = rng.choice([1.0, 0.25, 0.1, 0.0025, 1000.0, rng.uniform(0.01, 10), 10 ** rng.uniform(-3, 3)])
+            scale = csz * rng.choice([0, 1, 10, 1000])
+            xll = rng.choice([0.0, -3.5 * csz, rng.uniform(-1, 1) * scale, 112.90125, -2951000.0])
+            yll = rng.choice([0.0, 7 * csz, rng.uniform(-1, 1) * scale, -43.74375])
+            fr = [rng.choice([0.5, 0.25, 0.75, 0.01, 0.99, 0.0, rng.random()]) for _ in range(4)]
+            if c0 == c1:
+                fr[0], fr[1] = sorted(fr[:2])
+            if rt == rb:
+                fr[2], fr[3] = sorted(fr[2:])
+            x0 = float(np.float64(xll) + np.float64(csz) * (c0 + fr[0]))
+            x1 = float(np.float64(xll) + np.float64(csz) * (c1 + fr[1]))
+            y0 = float(np.float64(yll) + np.float64(csz) * ((nr - 1 - rb) + fr[2]))
+            y1 = float(np.float64(yll) + np.float64(csz) * ((nr - 1 - rt) + fr[3]))
+        g, vals, nodw = make_grid(Grid, rng, tname, (nr, nc), georef=(xll, yll, csz))
+        g.data = vals
         # keep to the property's region: both corners inside the extent, lower-left below / left of upper-right,
-        # decided in exact arithmetic
-        F = Fraction
+        # decided in exact arithmetic on the float64 inputs
         fx = lambda x: (F(x) - F(xll)) / F(csz)  # noqa
         fy = lambda y: (F(y) - F(yll)) / F(csz)  # noqa
         inside = all(0 <= fx(x) < nc for x in (x0, x1)) and all(0 <= fy(y) < nr for y in (y0, y1))
         if not inside or x1 < x0 or y1 < y0:
             ctx.count(("clip", rep), False, "clip/skipped_outside")
             continue
-        # distance of the corners to a cell edge, in cells: when rounding could move a corner across an edge the exact
-        # expectation below is not claimed for the float code
-        edge = min(min(abs(fx(x) - round(fx(x))) for x in (x0, x1)), min(abs(fy(y) - round(fy(y))) for y in (y0, y1)))
         mag = max(abs(xll), abs(yll), abs(x1), abs(y1), csz * max(nr, nc))
-        safe = float(edge) * csz > 64 * np.spacing(mag)
+        tolc = F(64 * float(np.spacing(mag))) / F(csz)          # 64 ulp of the coordinates, in cells
+        # `safe`: every corner is clear of every cell edge, so rounding cannot move it into a neighbouring cell and the
+        # exact window is claimed. `safe_ext`: every corner is clear of the OUTER boundary of the extent (or exactly on
+        # its lower/left side), so the float code must see it inside whichever cell it rounds into.
+        edge = min(min(abs(fx(x) - round(fx(x))) for x in (x0, x1)), min(abs(fy(y) - round(fy(y))) for y in (y0, y1)))
+        safe = edge > tolc
+        safe_ext = all((q == 0 or q > tolc) and (n - q) > tolc for q, n in
+                       [(fx(x0), nc), (fx(x1), nc), (fy(y0), nr), (fy(y1), nr)])
+        onedge = "on_lattice" if edge == 0 else ("near_edge" if not safe else "interior")
         case = {"op": "clip", "dtype": tname, "shape": [nr, nc], "xll": repr(xll), "yll": repr(yll), "csz": repr(csz),
-                "box": [repr(x0), repr(y0), repr(x1), repr(y1)]}
+                "box": [repr(x0), repr(y0), repr(x1), repr(y1)], "corners": onedge}
         try:
             cl = g.clip(x0, y0, x1, y1)
         except Exception as e:  # noqa
-            if safe:
+            if safe_ext:
                 ctx.finding("clip/raises", "Grid.clip raises for a box inside the extent", {**case, "error": f"{exc_class(e)}: {e}"[:200]})
             ctx.count(("clip", rep), False, "clip/error")
             continue
         ask(f"clip {rawhex(x0)} {rawhex(y0)} {rawhex(x1)} {rawhex(y1)} " + grid_toks(g), "grid_nocomment", obs_real(cl), case)
-        # ---- oracle, exact expectation: rows/cols of the cells holding the corners
+        cls = data_class(t, vals)
+        if np.dtype(cl.dtype) != t or not same_value(cl.nodata, g.nodata) or type(cl.nodata) is not type(g.nodata):
+            ctx.finding("clip/dtype_nodata", "clip changed the data type or the no-data value", case)
+        if rawhex(cl.cellsize) != rawhex(g.cellsize):
+            ctx.finding("clip/cellsize", "clip changed the cell size", case)
+        # ---- oracle 1 (the property as stated, whichever cells the corners round into): the clipped grid, read through
+        # ITS OWN georeferencing, holds at each of its cell centres the value the parent holds at that coordinate
+        if safe_ext:
+            ncl = int(cl.nrows) * int(cl.ncols)
+            if ncl < 1 or cl.data.shape != (int(cl.nrows), int(cl.ncols)):
+                ctx.finding("clip/empty", "clip of a box inside the extent is empty or inconsistent", {**case, "clip_shape": list(cl.data.shape)})
+            else:
+                cxy = cl.cell2coord(np.arange(ncl))
+                back = g.coord2cell(cxy)
+                if (back < 0).any():
+                    ctx.finding("clip/centres", "a cell centre of the clipped grid lies outside the parent", case)
+                else:
+                    pvals = uview(g.data).ravel()[back]
+                    cvals = uview(cl.data).ravel()
+                    if not np.array_equal(pvals, cvals):
+                        k = int(np.argwhere(pvals != cvals)[0][0])
+                        ctx.finding(f"clip/values_at_centres/{cls}",
+                                    "a cell of the clipped grid does not hold the value the parent holds at that cell's centre",
+                                    {**case, "clip_cell": k, "centre": [float(v) for v in cxy[k]], "parent_cell": int(back[k]),
+                                     "clip_word": int(cvals[k]), "parent_word": int(pvals[k]), "n_differ": int((pvals != cvals).sum())})
+                    pxy = g.cell2coord(back)
+                    tol = 4 * np.spacing(mag)
+                    if not np.all(np.abs(cxy - pxy) <= tol):
+                        ctx.finding("clip/centres", "cell centres of the clipped grid do not coincide with the parent's",
+                                    {**case, "max_diff": float(np.abs(cxy - pxy).max()), "tol": float(tol)})
+        # ---- oracle 2 (exact window, claimed only when no corner is within rounding distance of a cell edge)
         ec0, ec1 = int(fx(x0) // 1), int(fx(x1) // 1)
         erb, ert = nr - 1 - int(fy(y0) // 1), nr - 1 - int(fy(y1) // 1)
         if safe:
             exp = vals[ert:erb + 1, ec0:ec1 + 1]
-            check_bits(ctx, f"clip/values/{data_class(t, vals)}", "the clipped grid does not hold the parent's values of the boxed cells", exp, cl.data, case)
-            if np.dtype(cl.dtype) != t or not same_value(cl.nodata, g.nodata) or type(cl.nodata) is not type(g.nodata):
-                ctx.finding("clip/dtype_nodata", "clip changed the data type or the no-data value", case)
-            if rawhex(cl.cellsize) != rawhex(g.cellsize):
-                ctx.finding("clip/cellsize", "clip changed the cell size", case)
-            # centres: clipped cell (i, j) <-> parent cell (ert+i, ec0+j)
-            if cl.data.shape == exp.shape:
-                ci = np.arange(int(cl.nrows) * int(cl.ncols))
-                cxy = cl.cell2coord(ci)
-                pi = np.array([(ert + i) * nc + (ec0 + j) for i in range(exp.shape[0]) for j in range(exp.shape[1])])
-                pxy = g.cell2coord(pi)
-                tol = 4 * np.spacing(mag)
-                if not np.all(np.abs(cxy - pxy) <= tol):
-                    ctx.finding("clip/centres", "cell centres of the clipped grid do not coincide with the parent's", {**case, "max_diff": float(np.abs(cxy - pxy).max()), "tol": float(tol)})
-                # the value found in the parent at the clipped grid's own centres
-                back = g.coord2cell(cxy)
-                if not np.array_equal(back, pi):
-                    ctx.finding("clip/centres", "a clipped cell centre does not fall in the corresponding parent cell", case)
-                elif not np.array_equal(uview(g.data).flat[back], uview(cl.data).ravel()):
-                    ctx.finding(f"clip/values/{data_class(t, vals)}", "value at a coinciding centre differs from the parent's", case)
-        ctx.count(("clip", tname, nr, nc, c0, c1, rb, rt, tuple(fr)), safe, "clip/" + ("multi" if (ec1 > ec0 and erb > ert) else "thin"),
+            check_bits(ctx, f"clip/values/{cls}", "the clipped grid does not hold the parent's values of the boxed cells", exp, cl.data, case)
+        elif safe_ext and cl.data.size:
+            # a corner on / next to an edge may fall in either adjacent cell: the window may differ by one row / column
+            if abs(cl.data.shape[0] - (erb - ert + 1)) > 2 or abs(cl.data.shape[1] - (ec1 - ec0 + 1)) > 2:
+                ctx.finding("clip/window", "the clipped window is more than one cell away from the boxed cells", {**case, "clip_shape": list(cl.data.shape)})
+        ctx.count(("clip", tname, nr, nc, c0, c1, rb, rt, tuple(str(f) for f in fr), lattice, x0, y0), safe_ext,
+                  f"clip/{'lattice' if lattice else 'free'}/{onedge}/" + ("multi" if (ec1 > ec0 and erb > ert) else "thin"),
                   sample=case)
 
     # ======================================================================= (7) catchments
@@ -957,13 +1058,14 @@ def body(ctx):
                 ctx.disagree(f"{tag}: the code raises {impl}, the model loads", {**case, "model": rep[:200]})
             elif impl not in ERRCLASS.get(toks[1], set()):
                 ctx.disagree(f"{tag}: the code raises {impl}, the model reports {toks[1]}", case)
-        elif kind in ("grid", "grid_nocomment"):
+        elif kind in ("grid", "grid_nocomment", "grid_nonodata"):
             if toks[0] != "ok":
                 ctx.disagree(f"{tag}: model fails ({rep}) where the code succeeds", case)
                 continue
             model = obs_model(toks[1:])
             # the clip comment quotes the box with python's float printing (external, not constrained by the property)
-            d = diff_obs(impl, model, skip=("comment",) if kind == "grid_nocomment" else ())
+            # clone(other dtype) keeps the no-data scalar of the old dtype (not an observable of the property)
+            d = diff_obs(impl, model, skip={"grid_nocomment": ("comment",), "grid_nonodata": ("nodata",)}.get(kind, ()))
             if d:
                 ctx.disagree(f"{tag}: grids differ in {d}", {**case, "impl": {k: impl[k] for k in d}, "model": {k: model[k] for k in d}})
         elif kind == "todict":
